@@ -46,7 +46,7 @@ TChmod   == Ev.a = "Chmod"   /\ ((Accept(CanAttr(Ev.p), tree, {Ev.p}, {"mode"}) 
 TChown   == Ev.a = "Chown"   /\ ((Accept(CanAttr(Ev.p), tree, {Ev.p}, {"uid", "gid"}) /\ At[Ev.p].uid = Ev.v /\ At[Ev.p].gid = Ev.w) \/ Refuse({Ev.p}))
 TChtimes == Ev.a = "Chtimes" /\ ((Accept(CanAttr(Ev.p), tree, {Ev.p}, {"mt", "at"}) /\ At[Ev.p].mt = Ev.v /\ At[Ev.p].at = Ev.w) \/ Refuse({Ev.p}))
 \* Hold: a read-write handle on an existing file is opened and kept across the following calls; nothing changes
-THold == /\ Ev.a = "Hold" /\ Ev.res = "ok" /\ Clean /\ IsFile(Ev.p) /\ Api = tree /\ Api2 = tree
+THold == /\ Ev.a = "Hold" /\ Ev.res \in {"ok", "err"} /\ (Ev.res = "ok" => IsFile(Ev.p)) /\ Clean /\ Api = tree /\ Api2 = tree
          /\ AttrFrame({Ev.p}, {"at"}) /\ attr' = At /\ UNCHANGED <<tree, out>>
 \* Truncate is not among the calls C04 lists: here it is held to the FRAME only (every other path and
 \* attribute unchanged, live view = re-opened view, the target stays a file); what the target holds is adopted
